@@ -245,8 +245,10 @@ def sampler_proxy():
 
 
 # ------------------------------------------------------------------------------------------ trace building
-def to_trace(events, n_walkers, tid=1):
-    """project recorded events onto the vocabulary of AfqmcTrace.tla (booleans / small ints only)"""
+def to_trace(events, n_walkers, tid=1, options=None):
+    """project recorded events onto the vocabulary of AfqmcTrace.tla (booleans / small ints only).  options: the options the
+    driver was really given (ad_mode, orbital_rotation, do_sr): attached to every Enter event, so that the trace
+    specification checks the DRIVER'S dispatch of the entry point for exactly these options"""
     out = []
     i = 0
     evs = events
@@ -293,7 +295,10 @@ def to_trace(events, n_walkers, tid=1):
                         "moved": bool(sel != list(range(len(sel)))), "copies_only": bool(all(j >= 0 for j in sel))})
         elif n == "Enter":
             out.append({"ev": "Enter", "entry": e["entry"], "steps": int(e["steps"]), "ene": int(e["ene"]),
-                        "sr": int(e["sr"])})
+                        "sr": int(e["sr"]), "has_opts": options is not None,
+                        "ad_mode": "none" if not options or options.get("ad_mode") is None else str(options["ad_mode"]),
+                        "orbital_rotation": bool(True if not options else options.get("orbital_rotation", True)),
+                        "do_sr": bool(True if not options else options.get("do_sr", True))})
         elif n == "Exit":
             k = e.get("killed")
             out.append({"ev": "Exit", "entry": e["entry"],
